@@ -721,18 +721,45 @@ type Joined []Location
 // a Joined object will be returned.
 func Join(locs ...Location) Location {
 	list := LocationList{}
+	// Push only ever touches the last node: pushing at the tail instead of
+	// walking the list from its head keeps Join linear in the number of parts.
+	tail := &list
 	for _, loc := range locs {
-		list.Push(loc, true)
+		tail.Push(loc, true)
+		for tail.Next != nil {
+			tail = tail.Next
+		}
 	}
 
-	switch list.Len() {
+	switch n := list.length(); n {
 	case 0:
 		panic("Join without arguments is not allowed")
 	case 1:
 		return list.Data
 	default:
-		return Joined(list.Slice())
+		return Joined(list.slice(n))
 	}
+}
+
+// length and slice are the iterative (linear time, constant stack) versions
+// of Len and Slice.
+func (ll *LocationList) length() int {
+	if ll.Next == nil && ll.Data == nil {
+		return 0
+	}
+	n := 0
+	for p := ll; p != nil; p = p.Next {
+		n++
+	}
+	return n
+}
+
+func (ll *LocationList) slice(n int) []Location {
+	list := make([]Location, 0, n)
+	for p := ll; p != nil; p = p.Next {
+		list = append(list, p.Data)
+	}
+	return list
 }
 
 func (joined Joined) slice() []Location {
